@@ -63,9 +63,15 @@ class NewFunctionAbs13:
     returns = Obj(AbsFunction, g_stream=Same("self.g_stream"), g_function=Same("self.g_function"), g_value=Same("value"))
 
 
+def within(table, k, v):
+    """v respects the declared limits of constant k - each limit may be absent (None in the code: ghost flags g_has_min/max)"""
+    return (not table[k].g_has_min or table[k].min_value <= v) and (not table[k].g_has_max or v <= table[k].max_value)
+
+
 @contract("secsgem.gem.equipment_constants_capability:EquipmentConstantsCapability._on_s02f15", "C13")
 class OnS2F15:
-    """S2F15 with 1..3 constants: EAC 0 exactly when every id is known and every value within that constant's limits; then
+    """S2F15 with 1..3 constants: EAC 0 exactly when every id is known and every value within that constant's limits (a
+    constant may declare both limits, one, or none); then
     all are applied in order (last write wins for a repeated id), otherwise nothing is written; constants that were
     within their limits stay within them; the limits themselves are never touched."""
 
@@ -74,7 +80,8 @@ class OnS2F15:
 
     def inputs(n):
         return {"self": Obj(GemEquipmentHandler,
-                            _equipment_constants=MapOf(EquipmentConstant, min_value=Int, max_value=Int, value=Int),
+                            _equipment_constants=MapOf(EquipmentConstant, g_has_min=Bool, g_has_max=Bool, min_value=NoneUnless("g_has_min", Int),
+                                                       max_value=NoneUnless("g_has_max", Int), value=Int),
                             _settings=Obj(Settings, streams_functions=Obj(StreamsFunctions, g_req=FixedList(*[record() for _ in range(n)]))),
                             g_writes=Int),
                 "_handler": Const(None), "message": Const(None)}
@@ -89,7 +96,7 @@ class OnS2F15:
         vals = [r.ECV.g_value for r in req]
         ok = True
         for i_, v_ in zip(ids, vals):
-            ok = ok and (i_ in t0) and t0[i_].min_value <= v_ and v_ <= t0[i_].max_value
+            ok = ok and (i_ in t0) and (not t0[i_].g_has_min or t0[i_].min_value <= v_) and (not t0[i_].g_has_max or v_ <= t0[i_].max_value)
         eac = result.g_value
 
         def final(k):
@@ -104,9 +111,9 @@ class OnS2F15:
             "refused-applies-nothing": implies(not ok, lambda: self.g_writes == old.self.g_writes
                                                and forall(-2 ** 63, 2 ** 64, lambda k: t[k].value == t0[k].value)),
             "accepted-applies-all": implies(ok, lambda: forall(-2 ** 63, 2 ** 64, lambda k: t[k].value == final(k))),
-            "limits-preserved": forall(-2 ** 63, 2 ** 64, lambda k: implies(k in t0 and t0[k].min_value <= t0[k].value and t0[k].value <= t0[k].max_value,
-                                                                         lambda: t[k].min_value <= t[k].value and t[k].value <= t[k].max_value)),
-            "limits-themselves-unchanged": forall(-2 ** 63, 2 ** 64, lambda k: t[k].min_value == t0[k].min_value and t[k].max_value == t0[k].max_value),
+            "limits-preserved": forall(-2 ** 63, 2 ** 64, lambda k: implies(k in t0 and within(t0, k, t0[k].value), lambda: within(t, k, t[k].value))),
+            "limits-themselves-unchanged": forall(-2 ** 63, 2 ** 64, lambda k: t[k].min_value == t0[k].min_value and t[k].max_value == t0[k].max_value
+                                                  and t[k].g_has_min == t0[k].g_has_min and t[k].g_has_max == t0[k].g_has_max),
         }
 
     def replay(case, name, model):
@@ -118,7 +125,8 @@ class OnS2F15:
         failed, seen = [], []
         good, bad_range, unknown = (20, 100), (20, 501), (777, 1)
         other = ("EC3", 2)
-        requests = [[bad_range, other], [other, bad_range], [unknown, other], [other, unknown], [good, other], [other, bad_range, ("EC3", 3)][:case["n"] + 1]]
+        requests = [[bad_range, other], [other, bad_range], [unknown, other], [other, unknown], [good, other], [other, bad_range, ("EC3", 3)][:case["n"] + 1],
+                    [(22, -1), other], [other, (23, 101)], [(22, 5), (23, 99)]]      # constants with one declared limit only
         for upd in requests:
             upd = upd[:max(2, case["n"])]
             sess = A.Session()
@@ -129,7 +137,7 @@ class OnS2F15:
                 got = sess.ask(2, 15, tree)
                 after = {k: h.equipment_constants[k].value for k in A.EC}
                 eac = got[1][0] if isinstance(got, tuple) and got[0] == "B" else None
-                ok = all(e in A.EC and A.EC[e][1] <= v <= A.EC[e][2] for e, v in upd)
+                ok = all(e in A.EC and A.within(e, v) for e, v in upd)
                 seen.append({"update": [(e, v) for e, v in upd], "eac": eac, "changed": {str(k): [before[k], after[k]] for k in A.EC if before[k] != after[k]}})
                 if (eac == 0) != ok:
                     failed.append(f"S2F15 {upd}: EAC {eac}, expected {'0' if ok else 'non-zero'}")
@@ -139,7 +147,7 @@ class OnS2F15:
                     failed.append(f"S2F15 {upd} accepted but not applied: {after}")
                 for k in A.EC:
                     lo, hi = A.EC[k][1], A.EC[k][2]
-                    if not (lo <= after[k] <= hi):
+                    if not A.within(k, after[k]):
                         failed.append(f"after S2F15 {upd} constant {k} = {after[k]} outside {lo}..{hi}")
             finally:
                 sess.close()
